@@ -318,6 +318,38 @@ def run(ctx):
                        msg=f'the built-in code returns {v} under {seen or "no count test"} - not exactly "missing count >= m + 1": its adapter ignores the result, '
                            'so the front end reports success while nothing was rebuilt')
     r.require_min(2)
+    r = ctx.rule('R02j', 'fragments_to_string files each data fragment under its own header index (data[idx(fragment)] = fragment)',
+                 'the copy-out concatenates data[0..k-1]: a slot chosen by arrival order returns the payloads in the order the caller listed them, with rc 0')
+    fs_ = P.fn('fragments_to_string')
+    Cs_ = Canon(P, fs_)
+    Af_, _ = derived_pointers(fs_, [fs_.params[2][1]])
+    nst_ = 0
+    for st_ in fs_.insts():
+        if st_.op != 'store' or st_.ty != 'i8*':
+            continue
+        vd_ = fs_.defs.get(strip_ptr_casts(fs_, st_.ops[0]))
+        if vd_ is None or vd_.op != 'load' or vd_.ops[0] not in Af_:
+            continue
+        gd_ = fs_.defs.get(strip_ptr_casts(fs_, st_.ops[1]))
+        if gd_ is None or gd_.op != 'getelementptr':
+            continue
+        nst_ += 1
+        sub_ = Cs_.val(strip_int_casts(fs_, gd_.ops[-1]))
+        want_ = f'@get_fragment_idx({Cs_.val(vd_.res)})'
+        inst = f'fragments_to_string: fragment stored at line {st_.line} goes to slot idx(fragment)'
+        if sub_ == want_:
+            r.ok(inst, func=fs_.name, loc=st_.loc)
+        else:
+            r.fail(inst, func=fs_.name, sig=f'fragment filed under {sub_[:50]}', loc=st_.loc,
+                   msg=f'a supplied fragment is stored into slot {sub_} instead of slot {want_}: the payloads are joined in slot order, so fragments listed in another '
+                       'order than by index come back permuted')
+    if not nst_:
+        r.undecided('fragments_to_string: filing of the data fragments', loc=fs_.mod.src, msg='no store of a supplied fragment into a local slot found')
+    r.require_min(1)
+    r = ctx.rule('R02i', 'decode / reconstruct / fragments_needed refuse only over their arguments, k, m, local counts and the verdicts of their callees',
+                 'a refusal that consults another instance parameter (hd of a Reed-Solomon instance is never validated) turns sets within tolerance into errors')
+    shared.rule_refusal_inventory(ctx, P, r, ['liberasurecode_decode', 'liberasurecode_reconstruct_fragment', 'liberasurecode_fragments_needed'])
+    r.require_min(20)
     ctx.borrow('c05', ['R05e'], 'a loop variable of the wrong index space rebuilds a fragment from the wrong buffers and reports success')
     ctx.borrow('c15', ['R15e'], 'the RS decoder may write a data fragment only when it is flagged missing - and must not read a missing parity as if it were present')
     ctx.borrow('c03', ['R03b', 'R03c'], 'a supplied destination must be copied out whole')
